@@ -17,7 +17,7 @@ RULE = ("cases = scripts with 1..3 CREATE SEQUENCE statements between neighbour 
         "(exhaustive over orders, seeded choice of spelling variant and value), then random; values from {0, +-1, +-small, "
         "+-2^31, +-(2^63-1), -2^63, leading '+'}; keyword case random; one option per line or single line. "
         "Non-trivial = at least one option present; distinct = distinct DDL text."
-        " Added after seeded defects: verbatim names with dots inside quotes and names spelled like the option keywords behind a schema, scripts with CRLF line ends, statements without ';' closed by the start of the next CREATE statement.")
+        " Added after seeded defects: verbatim names with dots inside quotes and names spelled like the option keywords behind a schema, scripts with CRLF line ends, statements without ';' closed by the start of the next CREATE statement; wave 9: SET lines as neighbours (directly before / after one-line sequences), names beginning like COLLATE / AUTO_INCREMENT.")
 ASSUMPTIONS = ["each option appears at most once per sequence", "IF NOT EXISTS on sequences is not named by the property and not generated"]
 MIN_EVENTS = {"statements": 50, "run_return": 50}
 
@@ -74,7 +74,9 @@ EXACT_NAME_FORMS = [(None, '"billing.invoice_no"'), ("dev", '"v1.2_ids"'), ('"te
                     # names that merely begin like a type keyword
                     (None, "array_ids"), (None, "Array_Position_Seq"), ("arrays", "next_id"), (None, "enum_seq"), (None, "map_ids"), ("structs", "s1"),
                     # characters that are legal in unquoted names of some dialects
-                    ("hr", "emp#seq"), (None, "a$b"), ("app#1", "ids"), (None, "seq@x"), (None, "_q"), (None, "q_")]
+                    ("hr", "emp#seq"), (None, "a$b"), ("app#1", "ids"), (None, "seq@x"), (None, "_q"), (None, "q_"),
+                    # names that begin like the two words the lexer has rules of their own for
+                    ("risk", "collateral_id_seq"), (None, "Collaterals"), ("collateX", "s"), (None, "autoincrement_ids"), (None, "auto_increment_seq"), ("AutoIncrements", "q"), (None, "collate_")]
 
 
 def gen_sequence(rng, order, idx):
@@ -100,6 +102,8 @@ NEIGHBOURS = [
     "CREATE TABLE nb%d LIKE s.other;", "CREATE TABLE nb%d (LIKE src_t);", "CREATE TABLE nb%d (m MAP<STRING, INT>, a int CHECK (a > 0));",
     # a neighbour written over several lines (its parentheses open on the first line and close on a later one)
     "CREATE TABLE nb%d (\n  id int,\n  cache int,\n  start date\n);",
+    # SET lines (session settings of psql / pg_dump scripts) directly before and after one-line sequences
+    "SET opt%d = 1;", "SET search_path%d = public;",
 ]
 
 
@@ -133,11 +137,14 @@ def build_case(rng, orders, gen):
         nb = rng.choice(NEIGHBOURS) % n
         stmts.append(nb)
         plan.append({"kind": "neighbour", "ddl": nb})
-    if len(stmts) >= 3 and rng.random() < 0.12 and all(st.lstrip().upper().startswith("CREATE ") for st in stmts) and not any("LIKE" in st.upper() for st in stmts):
+    # (statements without ';' are not combined with SET lines: on the pinned tree a statement that is still pending because its predecessor had
+    #  no ';' is dropped when a SET line follows - outside every property, see DESIGN 7.1 wave 9)
+    has_set = any(st.upper().startswith("SET ") for st in stmts)
+    if not has_set and len(stmts) >= 3 and rng.random() < 0.12 and all(st.lstrip().upper().startswith("CREATE ") for st in stmts) and not any("LIKE" in st.upper() for st in stmts):      # (SET lines do not start with CREATE)
         stmts = [st[:-1] if st.endswith(";") else st for st in stmts]          # the whole script without ';'
     for q in range(len(stmts) - 1):
         # a statement without ';', closed by the start of the next one (which begins a line with CREATE): nothing of it may be lost
-        if rng.random() < 0.15 and stmts[q].endswith(";") and stmts[q + 1].lstrip().upper().startswith("CREATE ") and "LIKE" not in stmts[q].upper():
+        if not has_set and rng.random() < 0.15 and stmts[q].endswith(";") and stmts[q + 1].lstrip().upper().startswith("CREATE ") and "LIKE" not in stmts[q].upper():
             stmts[q] = stmts[q][:-1]
     ddl = finish_script(stmts)
     if rng.random() < 0.25:
